@@ -36,8 +36,8 @@ func (o op) String() string {
 
 func run(e *harness.Env) {
 	e.Rule = "revision histories: per revision and data object one of {untouched, set fresh value, delete}, xref kind per revision {table, stream}, " +
-		"object-stream membership per set object in stream revisions, reuse of the previous object-stream number, numbering {data objects above / below catalog+pages}, object 0 {untouched, rewritten} in updates that free; quick: n=2 objects, r<=2 full product + n=2,r=3 and n=3,r=2 with <=4 deviations from the plain history; " +
-		"thorough: n=2,r=3 full product and n=3,r<=2 full product. For every history: BFS over reader cache states, ops {GetObject(k) incl. undefined k, Resolve(ref), " +
+		"object-stream membership per set object in stream revisions, reuse of the previous object-stream number, numbering {data objects above / below catalog+pages}, object 0 {untouched, rewritten} in updates that free; two plain histories are explored around: every object defined once in revision 0, and (configs ending in d) every object rewritten in every revision; quick: n=2 objects, r<=2 full product + n=2,r=3 and n=3,r=2 with <=4 deviations from the define-once history + n=3,r=3 (<=2) and n=2,r=4 (<=1) around the rewrite-all history; " +
+		"thorough: n=2,r=3 full product and n=3,r<=2 full product, n=3,r=3 <=3 deviations around both plain histories, n=2,r=4 (<=3) and n=4,r=3 (<=2) around rewrite-all. For every history: BFS over reader cache states, ops {GetObject(k) incl. undefined k, Resolve(ref), " +
 		"Reader.ResolveDeep(all refs), resolver.ResolveDeep(all refs), ClearCache}; a state = (set of numbers looked up since the last clear, CacheSize, ObjectStreamCacheSize). " +
 		"non-trivial = history with at least one non-default choice"
 	e.Assumptions = []string{"internal/gen/pdfw writes well-formed incremental updates (self-validated offsets)", "reference model: map folded oldest->newest; free or absent => error"}
@@ -49,12 +49,15 @@ func run(e *harness.Env) {
 		name  string
 		n, r  int
 		bound int
+		dense bool // plain history = every data object rewritten in every revision (instead of defined once)
 	}
 	var cfgs []cfg
 	if e.Thorough() {
-		cfgs = []cfg{{"n2r1", 2, 1, -1}, {"n2r2", 2, 2, -1}, {"n2r3", 2, 3, -1}, {"n3r2", 3, 2, -1}, {"n3r3", 3, 3, 3}}
+		cfgs = []cfg{{"n2r1", 2, 1, -1, false}, {"n2r2", 2, 2, -1, false}, {"n2r3", 2, 3, -1, false}, {"n3r2", 3, 2, -1, false}, {"n3r3", 3, 3, 3, false},
+			{"n3r3d", 3, 3, 3, true}, {"n2r4d", 2, 4, 3, true}, {"n4r3d", 4, 3, 2, true}}
 	} else {
-		cfgs = []cfg{{"n2r1", 2, 1, -1}, {"n2r2", 2, 2, -1}, {"n2r3", 2, 3, 4}, {"n3r2", 3, 2, 4}}
+		cfgs = []cfg{{"n2r1", 2, 1, -1, false}, {"n2r2", 2, 2, -1, false}, {"n2r3", 2, 3, 4, false}, {"n3r2", 3, 2, 4, false},
+			{"n3r3d", 3, 3, 2, true}, {"n2r4d", 2, 4, 1, true}}
 	}
 	for _, cf := range cfgs {
 		cf := cf
@@ -79,6 +82,10 @@ func run(e *harness.Env) {
 					rev.Objs = append(rev.Objs,
 						pdfw.Obj{Num: catNum, Body: fmt.Sprintf("<< /Type /Catalog /Pages %d 0 R >>", pagesNum)},
 						pdfw.Obj{Num: pagesNum, Body: "<< /Type /Pages /Kids [] /Count 0 >>"})
+					// the two structural objects are looked up like any other (they live in the oldest revision only)
+					model[catNum] = "<< /Type /Catalog >>"
+					model[pagesNum] = "<< /Type /Pages >>"
+					defined[catNum], defined[pagesNum] = true, true
 				}
 				packedAny := false
 				touched := map[int]bool{}
@@ -87,7 +94,7 @@ func run(e *harness.Env) {
 					num := firstData + k
 					// revision 0 defaults to "set" so that the plain history defines everything once
 					var act string
-					if ri == 0 {
+					if ri == 0 || cf.dense {
 						act = c.PickS(fmt.Sprintf("a%d.%d", ri, num), "set", "none", "del")
 					} else {
 						act = c.PickS(fmt.Sprintf("a%d.%d", ri, num), "none", "set", "del")
@@ -180,7 +187,7 @@ func run(e *harness.Env) {
 			for k := 0; k < n; k++ {
 				nums = append(nums, firstData+k)
 			}
-			nums = append(nums, undefinedNum)
+			nums = append(nums, catNum, pagesNum, undefinedNum)
 			var sig, det string
 			var states, trans int
 			psig, pdet := harness.Guard(func() { sig, det, states, trans = explore(path, nums, model) })
@@ -195,7 +202,7 @@ func run(e *harness.Env) {
 				c.Fail(sig, det, map[string][]byte{"pdf": built.Bytes})
 				return
 			}
-			live := len(model)
+			live := len(model) - 2 // data objects only
 			c.Pass(fmt.Sprintf("live=%d/%d states=%d", live, n, states))
 		})
 	}
@@ -317,6 +324,9 @@ func render(o core.Object) string {
 	case core.String:
 		return "(" + string(v) + ")"
 	case core.Dict:
+		if t, ok := v.Get("Type").(core.Name); ok {
+			return "<< /Type /" + string(t) + " >>"
+		}
 		return fmt.Sprintf("<< /Rev %v /Num %v /Cat %s >>", v.Get("Rev"), v.Get("Num"), render(v.Get("Cat")))
 	case core.IndirectRef:
 		return fmt.Sprintf("%d %d R", v.Number, v.Generation)
@@ -413,6 +423,10 @@ func sameValue(o core.Object, w string) bool {
 	case core.String:
 		return "("+string(v)+")" == w
 	case core.Dict:
+		if strings.HasPrefix(w, "<< /Type /") {
+			t, ok := v.Get("Type").(core.Name)
+			return ok && w == "<< /Type /"+string(t)+" >>"
+		}
 		rev, ok1 := v.Get("Rev").(core.Int)
 		num, ok2 := v.Get("Num").(core.Int)
 		return ok1 && ok2 && strings.HasPrefix(w, fmt.Sprintf("<< /Rev %d /Num %d ", int(rev), int(num)))
